@@ -34,6 +34,9 @@ pub struct Viol {
     pub replay: Value,
 }
 
+/// Path of the shard's result file (set by `rlmon shard`).
+pub static PARTIAL_OUT: std::sync::OnceLock<String> = std::sync::OnceLock::new();
+
 #[derive(Default)]
 pub struct ShardOut {
     pub evaluations: u64,
@@ -58,6 +61,18 @@ impl ShardOut {
         }
     }
     pub fn viol(&mut self, v: Viol) {
+        let is_new = v.prop != "HARNESS" && !self.viols.iter().any(|x| x.sig == v.sig);
+        self.viol_inner(v);
+        // A shard that finds a violation may afterwards run into the parent's wall-clock watchdog (e.g. every later
+        // wait on a worker that has died runs to its limit). What it found must not be lost with it: the result file
+        // is rewritten whenever a new signature appears.
+        if is_new {
+            if let Some(p) = PARTIAL_OUT.get() {
+                let _ = std::fs::write(format!("{}.partial", p), serde_json::to_string(&self.to_json()).unwrap_or_default());
+            }
+        }
+    }
+    fn viol_inner(&mut self, v: Viol) {
         // a problem of the harness itself (a wait that ran out of time, a generator mistake) is a case not judged
         if v.prop == "HARNESS" {
             self.inconclusive.push(format!("{}: {}", v.sig, v.text));
